@@ -126,6 +126,7 @@ def run(ck):
         ck.ob("C05-O1", sitestr(fn, c_wr[0]), ok, "the write is IODeviceSink::send (FileSink does not override it)" if ok else "the write resolves to %s" % c_wr[0].get("callee"), key="RotatingFileSink::send|write-target")
     record_framing(ck, S, "C05-O2")
     # ---- O3
+    closed_before_handover(ck, S, "C05-O3", "C05")
     fn = S.m["rotate"]
     g = S.g(fn)
     closes = [n for n in fn.calls(("QFileDevice::close", "QFile::close", "QIODevice::close")) if S.is_active_file(n.get("obj"))]
